@@ -57,6 +57,9 @@ type Exec struct {
 	GoalReached bool
 	Stranded    string
 	Script      []string
+	// SecondCrash, when > 0, arms another kill that many effects after the first restart
+	SecondCrash int
+	Crashes     int
 	// RejectClass is the failure class the model expects for a change the device refuses (default INVALID)
 	RejectClass string
 }
@@ -289,7 +292,11 @@ func (e *Exec) handleCrash() {
 		}
 	}
 	e.script("PROCESS KILLED; restarting (reconnecting %v)", reconnect)
+	e.Crashes++
 	e.W.CrashBeforeEffect(0)
+	if e.SecondCrash > 0 && e.Crashes == 1 {
+		e.W.CrashBeforeEffect(e.W.Effects() + int64(e.SecondCrash))
+	}
 	if err := e.W.Restart(e.Opts, reconnect); err != nil {
 		e.C.Inconclusive("restart failed: " + err.Error())
 	}
